@@ -291,6 +291,35 @@ def run(ctx, config='rel-all'):
             else:
                 ctx.violation('O8', fn, 'reserve-amount', '%s must reserve exactly %s additional elements; it reserves %s' % (fn, show(want), [show(e.args[-1])[:60] for e in rs]), bs[0].get('span'))
         ctx.floor('O8', n8, 6, 'growing primitives checked for their reserve amount')
+    # ---- O9 constructor glue: the convenience constructors hand their capacity on unchanged (new / try_new / default with 0) and a
+    # fresh arena has no limit; min_align() reports the const parameter
+    def bump_fn(name):
+        bs = [b for b in db.fn_bodies() if b['kind'] == 'assoc_fn' and b['meta'].get('impl_adt') == 'Bump' and b['meta'].get('name') == name]
+        if not bs:
+            ctx.anchor_missing('O9', 'Bump::' + name)
+        return bs[0] if bs else None
+    n9 = 0
+    for name, callee, arg in (('new', '::with_capacity', C(0)), ('try_new', '::try_with_capacity', C(0)), ('with_capacity', '::try_with_capacity', ('param', 1)),
+                              ('try_with_capacity', '::try_with_min_align_and_capacity', ('param', 1)), ('with_min_align_and_capacity', '::try_with_min_align_and_capacity', ('param', 1))):
+        b = bump_fn(name)
+        if not b:
+            continue
+        J, r = arena.run_fn(ctx, b['id'], config)
+        cs = [e for e in r.events if e.kind == 'call' and len(e.stack) == 1 and (e.callee or '').endswith(callee)]
+        n9 += 1
+        if len(cs) == 1 and cs[0].args == [arg]:
+            ctx.ok('O9', 'Bump::%s forwards capacity %s to %s' % (name, show(arg), callee[2:]), 'argument identity')
+        else:
+            ctx.violation('O9', 'Bump::' + name, 'capacity-forward', 'Bump::%s must hand capacity %s on to %s unchanged; calls: %s' % (name, show(arg), callee[2:], [(e.callee.split('::')[-1], [show(a)[:30] for a in e.args]) for e in cs]), b.get('span'))
+    b = bump_fn('min_align')
+    if b:
+        J, r = arena.run_fn(ctx, b['id'], config)
+        n9 += 1
+        if r.ret == sym('MIN_ALIGN'):
+            ctx.ok('O9', 'Bump::min_align() returns MIN_ALIGN', 'return term')
+        else:
+            ctx.violation('O9', 'Bump::min_align', 'return', 'min_align() returns %s' % show(r.ret)[:60], b.get('span'))
+    ctx.floor('O9', n9, 6, 'constructor / accessor glue of Bump')
     # ---- R5 capacities
     if config != 'rel-default':
         for path, nav in (("collections::raw_vec::RawVec::<'a, T>::with_capacity_in", ()), ("collections::vec::Vec::<'bump, T>::with_capacity_in", ('buf',)), ("collections::string::String::<'bump>::with_capacity_in", ('vec', 'buf'))):
